@@ -20,8 +20,8 @@ _m(
     "scheduler (none/exp), 2-3 epochs, batch_size in 1..J+2 or None, first call with/without reset, re-run with/without "
     "re-passing optimizer_params.  A case is NON-TRIVIAL when: batcher - the batch size does not divide n or "
     "val_ratio > 0; split - the items cannot be split evenly (num_batches does not divide num_items, or max_batch < "
-    "num_items does not divide it); invariance - always (at least batch size 1 gives >= 4 batches against one full "
-    "batch); determinism - an epoch has >= 2 training batches (so the shuffle order influences the history).  distinct = "
+    "num_items does not divide it); invariance - at least two training patterns are certain, J - round(J*val_ratio) >= 2 "
+    "(batch size 1 then gives >= 2 batches against the one full batch); determinism - an epoch has >= 2 training batches (so the shuffle order influences the history).  distinct = "
     "SHA-1 of the canonical JSON of the whole case.",
     [
         "n >= 1 everywhere (SimpleBatcher(0, None) is a range() step-0 error: an empty dataset is not a claimed input); "
